@@ -29,13 +29,18 @@ def cr : Char := '\r'
 def replaceChar (c : Char) (w : Str) (s : Str) : Str :=
   s.flatMap (fun x => if x = c then w else [x])
 
-/-- `s.replace(abc, w)` for a three-character pattern (leftmost, non-overlapping) -/
-def replace3 (a b c : Char) (w : Str) : Str → Str
-  | x :: y :: z :: t =>
-    if x = a ∧ y = b ∧ z = c then w ++ replace3 a b c w t else x :: replace3 a b c w (y :: z :: t)
-  | x :: t => x :: replace3 a b c w t
-  | [] => []
-termination_by s => s.length
+/-- `s.replace(abc, w)` for a three-character pattern (leftmost, non-overlapping); `skip` = characters of
+    a match just replaced that are still to be stepped over (keeps the recursion structural) -/
+def replace3Aux (a b c : Char) (w : Str) : Nat → Str → Str
+  | _, [] => []
+  | skip + 1, _ :: t => replace3Aux a b c w skip t
+  | 0, x :: t =>
+    match t with
+    | y :: z :: _ =>
+      if x = a ∧ y = b ∧ z = c then w ++ replace3Aux a b c w 2 t else x :: replace3Aux a b c w 0 t
+    | _ => x :: replace3Aux a b c w 0 t
+
+def replace3 (a b c : Char) (w : Str) (s : Str) : Str := replace3Aux a b c w 0 s
 
 /-- `s.replace(pat, rep)`; patterns of other lengths do not occur in the writers
     (a regenerated table with another shape leaves the text unchanged, which the
@@ -56,10 +61,13 @@ def applyChain (chain : List (Str × Str)) (s : Str) : Str :=
 def ntQuoteEncode (s : Str) : Str :=
   dq :: applyChain Tables.ntChain s ++ [dq]
 
+/-- `'"""' in s` -/
 def hasTriple : Str → Bool
-  | x :: y :: z :: t => (x == dq && y == dq && z == dq) || hasTriple (y :: z :: t)
-  | _ => false
-termination_by s => s.length
+  | [] => false
+  | x :: t =>
+    (match t with
+     | y :: z :: _ => x == dq && y == dq && z == dq
+     | _ => false) || hasTriple t
 
 /-- number of leading backslashes (used on the reversed text: `len(body) - len(body.rstrip("\\"))`) -/
 def leadingBs : Str → Nat
@@ -122,6 +130,49 @@ def appOpt (w : Str) : Option Str → Option Str
   | some s => some (w ++ s)
   | none => none
 
+/-- what follows a backslash: ECHAR or UCHAR ([26] `\\u` HEX{4} | `\\U` HEX{8}); returns the character and the rest -/
+def unescape : Str → Option (Char × Str)
+  | [] => none
+  | e :: r =>
+    match echar e with
+    | some d => some (d, r)
+    | none =>
+      if e = 'u' then
+        match r with
+        | h1 :: h2 :: h3 :: h4 :: r' =>
+          match (hexNum [h1, h2, h3, h4]).bind ucharOf with
+          | some d => some (d, r')
+          | none => none
+        | _ => none
+      else if e = 'U' then
+        match r with
+        | h1 :: h2 :: h3 :: h4 :: h5 :: h6 :: h7 :: h8 :: r' =>
+          match (hexNum [h1, h2, h3, h4, h5, h6, h7, h8]).bind ucharOf with
+          | some d => some (d, r')
+          | none => none
+        | _ => none
+      else none
+
+theorem unescape_lt {r r' : Str} {d : Char} (h : unescape r = some (d, r')) : r'.length < r.length := by
+  unfold unescape at h
+  split at h
+  · simp at h
+  · split at h
+    · simp at h; obtain ⟨_, rfl⟩ := h; simp
+    · split at h
+      · split at h
+        · split at h
+          · simp at h; obtain ⟨_, rfl⟩ := h; simp; omega
+          · simp at h
+        · simp at h
+      · split at h
+        · split at h
+          · split at h
+            · simp at h; obtain ⟨_, rfl⟩ := h; simp; omega
+            · simp at h
+          · simp at h
+        · simp at h
+
 /-- body of STRING_LITERAL_(SINGLE_)QUOTE after the opening quote, up to and including the closing
     quote, which must be the last character: `([^q\\\n\r] | ECHAR | UCHAR)* q` -/
 def decShortBody (q : Char) : Str → Option Str
@@ -129,72 +180,44 @@ def decShortBody (q : Char) : Str → Option Str
   | c :: rest =>
     if c = q then (if rest = [] then some [] else none)
     else if c = bs then
-      match rest with
-      | [] => none
-      | e :: rest2 =>
-        match echar e with
-        | some d => consOpt d (decShortBody q rest2)
-        | none =>
-          if e = 'u' then
-            match rest2 with
-            | h1 :: h2 :: h3 :: h4 :: rest3 =>
-              match (hexNum [h1, h2, h3, h4]).bind ucharOf with
-              | some d => consOpt d (decShortBody q rest3)
-              | none => none
-            | _ => none
-          else if e = 'U' then
-            match rest2 with
-            | h1 :: h2 :: h3 :: h4 :: h5 :: h6 :: h7 :: h8 :: rest3 =>
-              match (hexNum [h1, h2, h3, h4, h5, h6, h7, h8]).bind ucharOf with
-              | some d => consOpt d (decShortBody q rest3)
-              | none => none
-            | _ => none
-          else none
+      match h : unescape rest with
+      | some (d, rest') => consOpt d (decShortBody q rest')
+      | none => none
     else if c = lf ∨ c = cr then none
     else consOpt c (decShortBody q rest)
+termination_by s => s.length
+decreasing_by
+  · have := unescape_lt h; simp; omega
+  · simp
 
 /-- body of STRING_LITERAL_LONG_(SINGLE_)QUOTE after the opening `qqq`, up to and including the closing
-    `qqq`, which must end the text:  `((q | qq)? ([^q\\] | ECHAR | UCHAR))* qqq` -/
+    `qqq`, which must end the text:  `((q | qq)? ([^q\\] | ECHAR | UCHAR))* qqq`.
+    One or two quotes must be followed by a non-quote item; three quotes close the literal. -/
 def decLongBody (q : Char) : Str → Option Str
   | [] => none
   | c :: rest =>
     if c = q then
-      -- one or two quotes must be followed by a non-quote item; three quotes close the literal
-      match hr : rest with
+      match rest with
       | [] => none
       | c2 :: rest2 =>
         if c2 = q then
-          match hr2 : rest2 with
+          match rest2 with
           | [] => none
           | c3 :: rest3 =>
             if c3 = q then (if rest3 = [] then some [] else none)
-            else appOpt [q, q] (decLongBody q rest2)
-        else consOpt q (decLongBody q rest)
+            else appOpt [q, q] (decLongBody q (c3 :: rest3))
+        else consOpt q (decLongBody q (c2 :: rest2))
     else if c = bs then
-      match hr : rest with
-      | [] => none
-      | e :: rest2 =>
-        match echar e with
-        | some d => consOpt d (decLongBody q rest2)
-        | none =>
-          if e = 'u' then
-            match hr2 : rest2 with
-            | h1 :: h2 :: h3 :: h4 :: rest3 =>
-              match (hexNum [h1, h2, h3, h4]).bind ucharOf with
-              | some d => consOpt d (decLongBody q rest3)
-              | none => none
-            | _ => none
-          else if e = 'U' then
-            match hr2 : rest2 with
-            | h1 :: h2 :: h3 :: h4 :: h5 :: h6 :: h7 :: h8 :: rest3 =>
-              match (hexNum [h1, h2, h3, h4, h5, h6, h7, h8]).bind ucharOf with
-              | some d => consOpt d (decLongBody q rest3)
-              | none => none
-            | _ => none
-          else none
+      match h : unescape rest with
+      | some (d, rest') => consOpt d (decLongBody q rest')
+      | none => none
     else consOpt c (decLongBody q rest)
 termination_by s => s.length
-decreasing_by all_goals (simp_wf <;> (try subst_vars) <;> (try simp) <;> (try omega))
+decreasing_by
+  · simp
+  · simp
+  · have := unescape_lt h; simp; omega
+  · simp
 
 /-- N-Triples STRING_LITERAL_QUOTE: the whole text is one double-quoted string -/
 def decodeNT (t : Str) : Option Str :=
@@ -306,5 +329,33 @@ def plainToken (k : NumKind) (lex : Str) : Option Str :=
 def plainChoice (k : NumKind) (lex : Str) : List (Str × Str) → Option Str
   | [] => none
   | (tok, norm) :: rest => if tokenOk k tok && norm == lex then some tok else plainChoice k lex rest
+
+end RV.C03
+
+namespace RV.C03
+
+/-! ### A numeric / boolean literal as Turtle text, and what a reader makes of it -/
+
+/-- the two spellings `turtle.label` can give a literal of a shorthand datatype -/
+inductive LitText
+  | shorthand (tok : Str)     -- bare token: 1, 1.5, 1e0, true
+  | quoted (body : Str)       -- "…"^^xsd:<k>   (body = the string token)
+  deriving DecidableEq, Repr
+
+/-- `turtle._literal_label` + `Literal._literal_n3(use_plain=False)`: `toks` are the candidate tokens
+    (CPython's formatting, an external), `norm k t` = lexical form of `Literal(t, datatype=k)` (external). -/
+def writeNum (norm : NumKind → Str → Str) (k : NumKind) (lex : Str) (toks : List Str) : LitText :=
+  match plainChoice k lex (toks.map (fun t => (t, norm k t))) with
+  | some tok => .shorthand tok
+  | none => .quoted (quoteEncode lex)
+
+/-- a Turtle reader: a bare token gets the datatype its grammar names, a quoted one the datatype written
+    after `^^`; either way the reader builds `Literal(text, datatype)` (normalising) -/
+def readNum (norm : NumKind → Str → Str) (k : NumKind) : LitText → Option (Str × NumKind)
+  | .shorthand tok => (relex tok).map (fun k' => (norm k' tok, k'))
+  | .quoted body => (decodeTurtle body).map (fun lex => (norm k lex, k))
+
+/-- the pre-fix writer: whatever `_literal_n3(use_plain=True)` printed was used unchecked -/
+def writeNumUnguarded (tok : Str) : LitText := .shorthand tok
 
 end RV.C03
